@@ -53,12 +53,13 @@ type copyRun struct {
 	rngMu    sync.Mutex
 	maxDelay time.Duration
 	hold     map[int]time.Duration // hold a node's Push open
+	onFetch  map[int]func()        // run once when the source is asked for the node (file-system faults)
 	instant  []string              // per-push closure observations "n ok"
 	truthDst content.ReadOnlyStorage
 }
 
 func newCopyRun(u *Universe, seed int64) *copyRun {
-	return &copyRun{u: u, fetches: map[int]int{}, pushes: map[int]int{}, rng: rand.New(rand.NewSource(seed)), hold: map[int]time.Duration{}}
+	return &copyRun{u: u, fetches: map[int]int{}, pushes: map[int]int{}, rng: rand.New(rand.NewSource(seed)), hold: map[int]time.Duration{}, onFetch: map[int]func(){}}
 }
 
 func (r *copyRun) log(name string, n int) {
@@ -131,7 +132,30 @@ func (s *instrSrc) Fetch(ctx context.Context, d ocispec.Descriptor) (io.ReadClos
 		}
 	}
 	s.r.delay()
-	return s.inner.Fetch(ctx, d)
+	s.r.mu.Lock()
+	hook := s.r.onFetch[n]
+	delete(s.r.onFetch, n)
+	s.r.mu.Unlock()
+	rc, err := s.inner.Fetch(ctx, d)
+	if hook != nil && err == nil {
+		// the hook runs inside the first Read, i.e. while the destination is already
+		// ingesting the content (after its own existence check)
+		return &hookReadCloser{ReadCloser: rc, hook: hook}, nil
+	}
+	return rc, err
+}
+
+type hookReadCloser struct {
+	io.ReadCloser
+	hook func()
+}
+
+func (h *hookReadCloser) Read(p []byte) (int, error) {
+	if h.hook != nil {
+		h.hook()
+		h.hook = nil
+	}
+	return h.ReadCloser.Read(p)
 }
 
 func (s *instrSrc) Exists(ctx context.Context, d ocispec.Descriptor) (bool, error) {
@@ -357,7 +381,17 @@ func declareCopyGraph(sc *Script, u *Universe, kind dstKind) {
 func presentSet(ctx context.Context, st content.ReadOnlyStorage, u *Universe) string {
 	var ids []int
 	for _, n := range u.Nodes {
-		if ok, _ := st.Exists(ctx, n.Desc); ok {
+		if ok, _ := st.Exists(ctx, n.Desc); !ok {
+			continue
+		}
+		// present means: the described bytes come back ("byte-identical to the source")
+		rc, err := st.Fetch(ctx, n.Desc)
+		if err != nil {
+			continue
+		}
+		b, rerr := io.ReadAll(rc)
+		rc.Close()
+		if rerr == nil && bytes.Equal(b, n.Bytes) {
 			ids = append(ids, n.ID)
 		}
 	}
